@@ -11,7 +11,7 @@ from sim.history import ZygoteFarm
 
 FMTS = ["READ_STATEMENTS", "EXEC_CLASSES"]
 FAULT_EXC = ["MemoryError", "RecursionError", "ValueError", "KeyError"]
-COMPILE_OPS = ("stmt", "insn", "fresh", "loaded_insn", "fresh2", "compile_parsed")
+COMPILE_OPS = ("stmt", "insn", "fresh", "loaded_insn", "fresh2", "compile_parsed", "xform2")
 
 SUB_CATALOGUE = [
     {"name": "vf_add3", "ret": "int32_t", "params": ["int32_t a", "int32_t b"], "body": "{ return a + b + 3; }"},
